@@ -121,11 +121,19 @@ Section Modes.
         end
     end.
 
-  (* the file system after the events: every EvWrite replaces the contents *)
-  Definition written (evs : list ev) (path : str) : option str :=
-    fold_left (fun acc e => match e with
-                            | EvWrite p r => if str_eqb p path then Some r else acc
-                            | _ => acc end) evs None.
+  (* the file system after the events: every EvWrite replaces the contents (the last one wins) *)
+  Fixpoint written (evs : list ev) (path : str) : option str :=
+    match evs with
+    | [] => None
+    | e :: t =>
+        match written t path with
+        | Some r => Some r
+        | None => match e with
+                  | EvWrite p r => if str_eqb p path then Some r else None
+                  | _ => None
+                  end
+        end
+    end.
 
   Definition after_write (evs : list ev) (f : file) : file :=
     match written evs (fi_path f) with
